@@ -158,6 +158,10 @@ def scalar(rng):
     return rng.choice([None, True, False, 0, 1, 7, -3, 1.5, -0.25, "", "hello", "a", "fixed", "2020-01-01", "2020-01-01T10:00:00", UUIDS[0]])
 
 
+class NoInstance(Exception):
+    """the schema has no finite instance along this path (required cycle)"""
+
+
 class Inst:
     def __init__(self, abs_, rng, maxdepth=4):
         self.abs, self.rng, self.maxdepth = abs_, rng, maxdepth
@@ -167,6 +171,8 @@ class Inst:
         """a JSON value valid for kind k (None result is a legitimate JSON null; use self.FAIL for 'cannot')."""
         rng = self.rng
         t = k[0]
+        if d > 14:
+            raise NoInstance()
         if t == "any":
             return scalar(rng) if rng.random() < 0.8 else rng.choice([[1, "a"], {"z": 1}, []])
         if t == "none":
